@@ -72,7 +72,7 @@ def refineError (hasEqs : Bool) (eps : List Ext) (evs : List Ev) (pv : Paving)
 
 def opsSolver (op : String) (ins outs : List String) : Option String :=
   match op, ins, outs with
-  | "solvelog", [dags, specs, root, evs, pv, eps], [_] => do
+  | "solvelog", [dags, specs, root, evs, pv, eps, _], [_] => do
     let eps ← (eps.splitOn ";").mapM parseExt
     let ds ← (dags.splitOn "|").mapM parseProgram
     let ss := specs.splitOn "|"
@@ -101,7 +101,7 @@ def opsSolver (op : String) (ins outs : List String) : Option String :=
     let a ← parseItems saved
     let b ← parseItems loaded
     pure (if a == b then s!"ok loaded-identical" else "FAIL loaded-paving-differs-from-the-saved-one")
-  | "resumelog", [dags, specs, prev, evs, new, eps], [_] => do
+  | "resumelog", [dags, specs, prev, evs, new, eps, _], [_] => do
     let eps ← (eps.splitOn ";").mapM parseExt
     let ds ← (dags.splitOn "|").mapM parseProgram
     let ss := specs.splitOn "|"
@@ -158,7 +158,7 @@ def opsSolver (op : String) (ins outs : List String) : Option String :=
     let tagU := if uniq then "uniqueness-certified" else "uniqueness-uncertified"
     let tagE := if square && exKnown then "existence-by-known-zero" else "existence-uncertified"
     pure s!"ok solution {if square then "square" else "under-constrained"} {tagU} {tagE}"
-  | "solvept", [dags, specs, pt, pv], _ => do
+  | "solvept", [dags, specs, pt, pv, _], _ => do
     let ds ← (dags.splitOn "|").mapM parseProgram
     let ss := specs.splitOn "|"
     if ds.length != ss.length then none else
